@@ -1,13 +1,19 @@
 from props import prop
 
 prop("C16", "exploration",
-     "rapid draws concurrent programs: 1-3 established tubes (reliable/unreliable, opened from either side), 2-6 goroutines of "
+     "rapid draws concurrent programs: 1-3 tubes (reliable/unreliable, opened from either side) - established before the program starts or, "
+     "in one case in three, LATE: opened 0-1500 ms after the program began, on the network with its faults already armed, while both "
+     "applications keep accepting, so that Close / Stop / the forced close behind Stop meet tubes whose initiation is still under way on "
+     "one or both ends or never completes (operations on an end that does not exist yet wait up to 2 virtual s for it, else are skipped; "
+     "late tubes get identifiers no other tube of the case has - reuse of identifiers is C09's subject; such cases draw half of their "
+     "yields from the initiation / forced-close path: Reliable.initiate after sending and before starting the sender, Muxer.Stop after "
+     "publishing 'stopping' and in its force timer, receiver dispatch, with delays around the documented timers 333 ms / 1 s) -, 2-6 goroutines of "
      "1-5 operations over both ends (Write, Read, Close, WaitForClose, SetDeadline, Muxer.Stop, Close+WaitForClose) with "
      "inter-operation delays; a preload (per tube end 0-20 writes of 1 B - 32 KiB made before the program starts and left unread by the "
      "peer, so that Close/Stop meet tubes with buffered, not yet read data); a loss pattern (0/10/50/100 %, healing at a drawn time, or a network that goes dead for good at a "
      "drawn moment), optionally the underlying connection failing (write errors or closed underneath) at a drawn moment, a muxer "
      "data timeout in {0, 2 s, 30 s}, and a yield schedule (virtual delays at the verif-tagged yield points in Muxer.Stop / "
-     "receiver / reaper, Reliable.Close / enterClosedState / receive / send loop, Unreliable.Close / receive / sender). Runs "
+     "receiver / reaper, Reliable.Close / enterClosedState / receive / send loop / initiate, Unreliable.Close / receive / sender). Runs "
      "inside a synctest bubble. Oracle: when both ends have closed and the network delivers, WaitForClose returns within 30 "
      "virtual s without any Stop; three concurrent Stop calls per muxer return within 20 virtual s with equal results; 30 s "
      "after both muxers stopped no call is still blocked; Write fails and Read reaches end-of-stream afterwards; reads return only "
